@@ -445,3 +445,10 @@ n("c19-walk-result-also-on-instance", "C19", (G + "core/config.py", "           
 n("c15-hit-list-generator-used-once", "C15", ("src/cobald/composite/factory.py", "        excess_demand = sum(child.demand for child in hit_list) - target\n", "        demands = (child.demand for child in hit_list)\n        excess_demand = sum(demands) - target\n"))
 n("c09-slave-table-bound-default", "C09", ("src/cobald/controller/switch.py", "        for _, slave in self._slaves:\n            slave.target = target\n        self.interval = interval\n", "        for _, slave in self._slaves:\n            slave.target = target\n        self._regulators = []\n        for _, slave in self._slaves:\n            self._regulators.append(lambda interval, slave=slave: slave.regulate(interval))\n        self.interval = interval\n"))
 n("c02-close-snapshot-per-round", "C02", (R + "asyncio_runner.py", "            for task in self._tasks.copy():\n", "            pending = self._tasks.copy()\n            for task in pending:\n"))
+# ---- the three defects repaired in round 8: the revert of each repair, and ways to get it wrong
+m("revert-fix-C01-stopiteration", "C01", "O1.14", (R + "thread_runner.py", "            if type(failure) is StopIteration:\n                # a Future refuses StopIteration: report it as the cause of a\n                # RuntimeError, the way a coroutine raising it is reported (PEP 479)\n                error = RuntimeError(\"payload raised StopIteration\")\n                error.__cause__ = failure\n                failure = error\n", ""))
+m("revert-fix-C10-falsy-exception", "C10", "O10.8", (R + "asyncio_runner.py", "        exception = future.exception()\n        if exception is not None:\n            raise exception\n", ""))
+m("c10-falsy-exception-truth-test", "C10", "O10.8", (R + "asyncio_runner.py", "        if exception is not None:\n            raise exception\n", "        if exception:\n            raise exception\n"))
+m("revert-fix-C18-compose-node", "C18", "O18.9", (G + "core/config.py", "        if not special_key and node.tag not in self.yaml_constructors:\n            self.construct_undefined(node)\n", ""))
+m("c18-compose-node-keys-unchecked", "C18", "O18.9", (G + "core/config.py", "            and index is None\n            and node.tag in (\"tag:yaml.org,2002:merge\", \"tag:yaml.org,2002:value\")\n", "            and index is None\n"))
+n("c18-n-compose-node-guard-clause", "C18", (G + "core/config.py", "        if not special_key and node.tag not in self.yaml_constructors:\n            self.construct_undefined(node)\n        return node\n", "        if special_key or node.tag in self.yaml_constructors:\n            return node\n        self.construct_undefined(node)\n        return node\n"))
